@@ -36,8 +36,23 @@ import (
 // realTime is set by families that run outside a synctest bubble
 var realTime bool
 
-const sessKey = "0123456789abcdef0123456789abcdef-deployment-key"
-const otherSessKey = "0123456789abcdef0123456789abcdef-deployment-kez"
+// the deployment's session key: longer than any digest block or fixed buffer a key derivation might use (64, 32 bytes)
+const sessKey = "0123456789abcdef0123456789abcdef-deployment-key-with-a-long-shared-secret-prefix-0123456789-production"
+
+// other keys: every one differs from the deployment's key — in the first byte, in the middle, only in the very last byte, only
+// beyond byte 64, by being a proper prefix of it (64, 32 bytes, all but the last byte) or an extension, or only in letter case
+var otherSessKeys = []string{
+	"1" + sessKey[1:],
+	sessKey[:40] + "X" + sessKey[41:],
+	sessKey[:len(sessKey)-1] + "z",
+	sessKey[:70] + "-staging-environment-0000000000",
+	sessKey[:64],
+	sessKey[:32],
+	sessKey[:len(sessKey)-1],
+	sessKey + "x",
+	strings.ToUpper(sessKey),
+}
+var otherKeyTurn int
 const issuerURL = "https://idp.test"
 
 var b64 = base64.RawURLEncoding
@@ -335,6 +350,7 @@ type down struct {
 	last  *http.Request
 	hdrs  http.Header
 	sched func(point string)
+	check func(r *http.Request) // called for every forwarded request (concurrent runs: per-request assertions)
 }
 
 func (d *down) ServeHTTP(w http.ResponseWriter, r *http.Request) {
@@ -345,7 +361,11 @@ func (d *down) ServeHTTP(w http.ResponseWriter, r *http.Request) {
 	d.calls++
 	d.last = r
 	d.hdrs = r.Header.Clone()
+	chk := d.check
 	d.mu.Unlock()
+	if chk != nil {
+		chk(r)
+	}
 	w.WriteHeader(200)
 	w.Write([]byte("downstream-ok"))
 }
